@@ -265,7 +265,7 @@ def ownedName (d : Decl) (kind : FieldKind) (recordTypeName : String) : String :
     let pre := if ns = "" then "" else ns ++ "."
     match kind with
     | .newtypeStruct => pre ++ nameIdent
-    | .structField f => pre ++ nameIdent ++ "." ++ f
+    | .structField f => recordTypeName ++ "." ++ f      -- (repair of D22: was `pre ++ nameIdent ++ "." ++ f`)
     | .newtypeVariant v => pre ++ d.ident ++ "." ++ v
 
 /-- `RegularType::name_mut` + assignment in `build_logical_type`. -/
@@ -427,8 +427,14 @@ def unionVariants (P : Prog) (hash : Key → String) : Nat → Decl → List Ty 
 
 end
 
-/-- `T::schema_mut()`: a fresh builder, `T::append_schema`, `SchemaMut::from_nodes`. -/
+/-- `T::schema_mut()`: a fresh builder, `builder.find_or_build::<T>()` (which registers the root
+    type too, repair of D23), `SchemaMut::from_nodes`. -/
 def schemaMut (P : Prog) (hash : Key → String) (fuel : Nat) (t : Ty) : Option SchemaMut :=
+  (findOrBuild P hash fuel t {}).map fun (_, s) => s.nodes
+
+/-- `schema_mut()` before the repair of D23: the root was appended without being registered, so a
+    recursive reference to it built the type a second time. -/
+def schemaMutOld (P : Prog) (hash : Key → String) (fuel : Nat) (t : Ty) : Option SchemaMut :=
   (appendSchema P hash fuel t {}).map fun (_, s) => s.nodes
 
 /-! ### What serde's derived `Serialize` presents for a value of a type
